@@ -84,7 +84,7 @@ def cfgTrace (tag : String) (g : Cfg) : List String :=
   let funcLines := g.funcs.map fun f =>
     let labels := sortStrings ((g.get f.entry).labels.map fun l => hexOfString l.val)
     let nodes := f.nodes.foldl (fun acc x => insNat x acc) []
-    s!"{tag}.FUNC entry={f.entry} exit={f.exit} labels=[{",".intercalate labels}] nodes={idxList nodes} defs={RegSet.str f.defs}"
+    s!"{tag}.FUNC entry={f.entry} exit={f.exit} labels=[{",".intercalate labels}] nodes={idxList nodes} defs={RegSet.str f.defs} args={RegSet.str (funcArguments g f)} rets={RegSet.str (funcReturns g f)}"
   let fl := sortStrings (g.labelFunc.map fun p => s!"{hexOfString p.1}>{p.2}")
   nodeLines ++ funcLines ++ [s!"{tag}.FUNCLABELS [{",".intercalate fl}]"]
 
